@@ -631,6 +631,11 @@ func (s *Sem) holdsOnAllPaths(site ssa.Instruction, pred SitePred, roots, within
 			callers = append(callers, cs)
 		}
 	}
+	for _, cs := range s.C.G.DynCallers(fn) {
+		if within == nil || within[cs.Caller] {
+			callers = append(callers, cs)
+		}
+	}
 	if len(callers) == 0 {
 		if len(s.C.G.AddrTaken[fn]) > 0 {
 			return false, FuncName(fn) + " is used as a function value (callers unknown) and does not establish the guard itself"
